@@ -1,5 +1,5 @@
 #!/bin/bash
-# usage: [SHARD=i/n] tools/selftest.sh [name-filter]      (SHARD: only every n-th case, starting with the i-th - run n of them in parallel)
+# usage: [SHARD=i/n] [FIRE_ONLY=1] tools/selftest.sh [name-filter]      (SHARD: only every n-th case, starting with the i-th - run n of them in parallel)
 # Tests the checks both ways against committed fixtures, in a scratch worktree of /repo HEAD (removed afterwards):
 #   fixtures/fire/<Cxx[+Cyy..]>__<what>.diff    every listed check must report a violation (exit 1 with a VIOLATION line)
 #   fixtures/silent/<Cxx[+Cyy..]>__<what>.diff  every listed check must stay silent (exit 0); the prefix ALL means all twenty checks
@@ -32,7 +32,8 @@ run_case() { # kind patch props...
     fi
   done
 }
-for kind in fire silent; do
+for kind in fire ${FIRE_ONLY:+skip-}silent; do
+  [ "$kind" = "skip-silent" ] && continue      # FIRE_ONLY=1: only the must-fire side (fixtures/fire and seeded/)
   for p in /verif/fixtures/$kind/*.diff; do
     [ -e "$p" ] || continue
     b=$(basename $p); case "$b" in *"$F"*) ;; *) continue;; esac
